@@ -190,12 +190,13 @@ def premise_d():
 
 # --------------------------------------------------------------------------- B, C: link-level
 PROBE_LIB = r'''
-#![no_std]
+#![cfg_attr(not(feature = "std"), no_std)]
 #![allow(clippy::all)]
 use core::num::NonZeroU8;
 use lexical_core as lc;
 use lc::{format::NumberFormatBuilder, ParseFloatOptions, ParseIntegerOptions, WriteFloatOptions, WriteIntegerOptions};
 
+#[cfg(not(feature = "std"))]
 #[panic_handler]
 fn ph(_: &core::panic::PanicInfo) -> ! { loop {} }
 
@@ -261,6 +262,9 @@ path = "{repo}/lexical-core"
 default-features = false
 features = ["write-integers", "write-floats", "parse-integers", "parse-floats", "radix", "format"{extra}]
 
+[features]
+std = ["lexical-core/std"]
+
 [profile.release]
 opt-level = 2
 panic = "abort"
@@ -270,7 +274,7 @@ debug = false
 '''
 
 ALLOWED_UNDEF = re.compile(
-    r"^(memcpy|memset|memmove|memcmp|bcmp|fmod|fmodf|floor|floorf|log|logf|"
+    r"^(memcpy|memset|memmove|memcmp|bcmp|fmod|fmodf|floor|floorf|log|logf|pow|powf|exp2|exp2f|"
     r"_?_?rust_(begin_unwind|eh_personality)|rust_begin_unwind|"
     r"_GLOBAL_OFFSET_TABLE_|__stack_chk_fail|__(u?div|u?mod|mul)ti\d|__floatunti[sd]f|__floatti[sd]f|__fixuns[sd]fti|__fix[sd]fti|"
     r"_ZN4core9panicking\w+|_ZN4core5slice5index\w+|_ZN4core6option13unwrap_failed\w+|_ZN4core6option13expect_failed\w+|"
@@ -284,7 +288,7 @@ def run(cmd, **kw):
     return subprocess.run(cmd, text=True, stdout=subprocess.PIPE, stderr=subprocess.STDOUT, **kw)
 
 
-def premise_bc(tmp, extra_features, tag):
+def premise_bc(tmp, extra_features, tag, std=False):
     d = os.path.join(tmp, "naprobe_" + tag)
     os.makedirs(os.path.join(d, "src"))
     extra = "".join(f', "{f}"' for f in extra_features)
@@ -292,7 +296,7 @@ def premise_bc(tmp, extra_features, tag):
     open(os.path.join(d, "src/lib.rs"), "w").write(PROBE_LIB)
     env = dict(os.environ, CARGO_NET_OFFLINE="true", CARGO_TARGET_DIR=os.path.join(d, "target"))
     env.pop("RUSTFLAGS", None)
-    r = run(["cargo", "build", "--release", "--offline", "-q"], cwd=d, env=env)
+    r = run(["cargo", "build", "--release", "--offline", "-q"] + (["--features", "std"] if std else []), cwd=d, env=env)
     if r.returncode != 0:
         print(r.stdout[-4000:])
         print(f"AUDIT-ERROR probe build failed ({tag}); if the public API changed, premise D reports how", flush=True)
@@ -300,7 +304,9 @@ def premise_bc(tmp, extra_features, tag):
         return {}
     lib = os.path.join(d, "target/release/libnaprobe.a")
     members = run(["ar", "t", lib]).stdout.split()
-    mine = [m for m in members if re.match(r"(lexical_|naprobe)", m)]
+    # rustc adds one allocator-shim object (`<crate>-<hash>.<hash>.rcgu.o`, no `-cgu.N`) to every std staticlib; it
+    # forwards __rust_alloc* to __rdl_* and contains no lexical or probe code, so it is not part of the subject
+    mine = [m for m in members if re.match(r"(lexical_|naprobe)", m) and "-cgu." in m]
     if len(mine) < 3:
         fail("B.members", f"{tag}: expected lexical_* and naprobe objects in archive, got {mine[:5]}")
     xd = os.path.join(d, "x"); os.makedirs(xd)
@@ -407,6 +413,8 @@ def main():
     try:
         report["BC_radix_format"] = premise_bc(tmp, [], "radix+format")
         report["BC_compact"] = premise_bc(tmp, ["compact"], "radix+format+compact")
+        # with `std` the in-tree libm port is replaced by the platform libm (pure math functions, no state)
+        report["BC_std_compact"] = premise_bc(tmp, ["compact"], "std+radix+format+compact", std=True)
         if want_miri:
             report["E"] = premise_e(tmp, seeds)
     finally:
